@@ -49,6 +49,10 @@ func (t *MailboxTracker) queueUpdate(update *trackerUpdate, source *SessionTrack
 		panic(fmt.Errorf("imapserver: cannot decrease mailbox number of messages from %v to %v", t.numMessages, update.numMessages))
 	}
 
+	if update.numMessages != 0 {
+		update.prevNum = t.numMessages
+	}
+
 	for st := range t.sessions {
 		if source != nil && st == source {
 			continue
@@ -100,6 +104,7 @@ func (t *MailboxTracker) QueueMessageFlags(seqNum uint32, uid imap.UID, flags []
 type trackerUpdate struct {
 	expunge      uint32
 	numMessages  uint32
+	prevNum      uint32 // number of messages before a numMessages update
 	mailboxFlags []imap.Flag
 	fetch        *trackerUpdateFetch
 }
@@ -272,8 +277,8 @@ func (t *SessionTracker) EncodeSeqNum(seqNum uint32) uint32 {
 
 	for i := len(t.queue) - 1; i >= 0; i-- {
 		update := t.queue[i]
-		// TODO: this doesn't handle increments > 1
-		if update.numMessages != 0 && seqNum == update.numMessages {
+		// the messages prevNum+1..numMessages are not known to the client yet
+		if update.numMessages != 0 && seqNum > update.prevNum {
 			return 0
 		}
 		if update.expunge != 0 && seqNum >= update.expunge {
